@@ -1,7 +1,7 @@
 """C03 - LAO* with an admissible heuristic returns an optimal closed policy."""
 import numpy as np
 
-from sim.core import Violation, Inconclusive, RandomProxy, patched_random, close6
+from sim.core import Violation, Inconclusive, InjectedAbort, RandomProxy, patched_random, close6
 from sim.models import gen_mdp_spec, MDPView, make_mdp, sibling_mdp_spec
 from sim.refsolve import optimal_values, evaluate
 from sim.heur import gen_heuristic, build_heuristic
@@ -50,7 +50,7 @@ def execute(case, script=None):
     view = MDPView(case['spec'])
     ctx = RunCtx(PROP, view)
     ctx.declare_probes('listener_events', 'absorbing_initial_state', 'multi_initial',
-                       'undiscounted', 'tie_between_actions', 'nonzero_heuristic_at_absorbing', 'planner_reused', 'iteration_cap_exact')
+                       'undiscounted', 'tie_between_actions', 'nonzero_heuristic_at_absorbing', 'planner_reused', 'iteration_cap_exact', 'rerun_after_abort')
     sched = make_scheduler(case, script, ctx)
     try:
         return _execute(lao, view, case['cfg'], ctx, sched)
@@ -108,6 +108,19 @@ def _execute(lao, view, cfg, ctx, sched):
             planner = lao.LAOStar(heuristic=lambda s: htab[sid[s]], seed=cfg['seed'], randomize_action_order=cfg['rao'],
                                   randomize_nextstate_order=cfg['rno'], max_lao_star_iterations=10000, event_listener_class=L)
             sib = sibling_mdp_spec(view.spec, cfg['reuse']) if cfg.get('reuse') is not None else None
+            if sib is not None and cfg['reuse'] % 2 == 1:
+                # fault F6: a first run on the SAME problem and objects is aborted by an exception thrown from a model call-back
+                # (the library analogue of a crash); the real run then uses the same planner and model objects
+                sib = None
+                ctx.probe('rerun_after_abort')
+                state['main'] = False
+                hook = ctx.abort_after(1 + cfg['reuse'] % 60)
+                try:
+                    planner.plan_on(mdp)
+                except InjectedAbort:
+                    pass
+                ctx.disarm(hook)
+                state['main'] = True
             if sib is not None:
                 # fault F5: the same planner object is first used on a sibling problem (same keys, one more absorbing state)
                 sched.fire('F5_object_reuse')
